@@ -13,34 +13,48 @@ Definition ren_var (ren : list (var * var)) (v : var) : var :=
   match lookup v ren with Some w => w | None => v end.
 Definition ren_sol (ren : list (var * var)) (m : sol) : sol :=
   fold_left (fun acc p => bind (ren_var ren (fst p)) (snd p) acc) m [].
+(* the empty renaming is the identity (variants that keep the variable names) *)
 Definition ren_obs (ren : list (var * var)) (o : obs) : obs :=
-  match o with RSel rows => RSel (map (ren_sol ren) rows) | _ => o end.
+  match ren with
+  | [] => o
+  | _ => match o with RSel rows => RSel (map (ren_sol ren) rows) | _ => o end
+  end.
 
 (* what a group of observations is *)
 Inductive gkind :=
 | GNormal                      (* base, variants with their own algebra, further observations of the base's algebra *)
 | GInit (pushed : list var)    (* [VALUES form; initBindings form]: only the VALUES form has a model *)
-| GNoModel.                    (* observations without a counterpart in the model (evaluations with initBindings):
-                                  judged by the specification only *)
+| GNoModel.                    (* [fresh; prepared], both evaluated with initBindings: no counterpart in the
+                                  model, judged by the specification only *)
 
 Record group := { g_base : case;                       (* evaluated by the model *)
                   g_vars : list (case * list (var * var));
                   g_same : N;
                   g_kind : gkind }.
 Definition vcase := list group.
-Definition vobs := list (list obs).
+(* one slot per way of posing the query; the model leaves the slots it has no
+   counterpart for empty (None), the implementation's observation fills all *)
+Definition vobs := list (list (option obs)).
 
 Definition g_pushed (g : group) : list var :=
   match g_kind g with GInit p => p | _ => [] end.
 
-Definition group_model (g : group) : list obs :=
+(* the number of observations a group must hold *)
+Definition group_size (g : group) : N :=
   match g_kind g with
-  | GInit _ => [model_obs (g_base g)]
-  | GNoModel => []
+  | GNormal => 1 + N.of_nat (length (g_vars g)) + g_same g
+  | GInit _ => 2
+  | GNoModel => 2
+  end.
+
+Definition group_model (g : group) : list (option obs) :=
+  match g_kind g with
+  | GInit _ => [Some (model_obs (g_base g)); None]
+  | GNoModel => [None; None]
   | GNormal =>
-      model_obs (g_base g)
-      :: map (fun cv => ren_obs (snd cv) (model_obs (fst cv))) (g_vars g)
-      ++ repeat (model_obs (g_base g)) (N.to_nat (g_same g))
+      Some (model_obs (g_base g))
+      :: map (fun cv => Some (ren_obs (snd cv) (model_obs (fst cv)))) (g_vars g)
+      ++ repeat (Some (model_obs (g_base g))) (N.to_nat (g_same g))
   end.
 
 Definition model_obs15 (c : vcase) : vobs := map group_model c.
@@ -51,28 +65,35 @@ Fixpoint list_eqb {A} (eq : A -> A -> bool) (a b : list A) : bool :=
   | x :: r, y :: s => eq x y && list_eqb eq r s
   | _, _ => false
   end.
-(* the model's list of a group may be a prefix of the implementation's (observations
-   without a counterpart in the model are compared by the specification only) *)
-Fixpoint prefix_eqb (m o : list obs) : bool :=
+(* an empty slot of the model is compared by the specification only *)
+Definition slot_eqb (m o : option obs) : bool :=
   match m, o with
-  | [], _ => true
-  | x :: r, y :: s => obs_eqb x y && prefix_eqb r s
-  | _ :: _, [] => false
+  | None, _ => true
+  | Some x, Some y => obs_eqb x y
+  | Some _, None => false
   end.
-Definition obs_eqb15 (a b : vobs) : bool := list_eqb prefix_eqb a b.
+Definition obs_eqb15 (a b : vobs) : bool := list_eqb (list_eqb slot_eqb) a b.
 
-(* the specification: within every group, every way of posing the query gives
-   the same answer (multiset of solutions) *)
-Definition group_ok (l : list obs) : bool :=
-  match l with [] => true | x :: r => forallb (obs_eqb x) r end.
-Definition spec_ok15 (c : vcase) (o : vobs) : bool :=
-  N.eqb (N.of_nat (length o)) (N.of_nat (length c)) && forallb group_ok o.
+(* the specification: every group holds as many observations as the case
+   demands, and within a group every way of posing the query gives the same
+   answer (multiset of solutions) *)
+Definition present (l : list (option obs)) : list obs :=
+  flat_map (fun s => match s with Some x => [x] | None => [] end) l.
+Definition group_ok (l : list (option obs)) : bool :=
+  match present l with [] => true | x :: r => forallb (obs_eqb x) r end.
+Fixpoint spec_ok15 (c : vcase) (o : vobs) : bool :=
+  match c, o with
+  | [], [] => true
+  | g :: c', l :: o' => N.eqb (N.of_nat (length l)) (group_size g) && group_ok l && spec_ok15 c' o'
+  | _, _ => false
+  end.
 
 (* trigger: some variant lies in the region of a C04 finding (the answers of the
    top-down evaluator are then not those of the algebra, and need not be
    invariant); for initBindings the bound variables are pushed at the root *)
 Definition kf_case (pushed : list var) (c : case) : N :=
-  scan (map fst (ds_named (c_ds c))) false pushed (c_alg c).
+  scan (map fst (ds_named (c_ds c))) false pushed (c_alg c)
+  |>| (if has_cmp (c_alg c) && second_kind c then 9 else 0).
 (* initBindings are never forgotten (FrozenBindings.forget keeps them): an
    expression that mentions such a variable where its own pattern does not
    certainly bind it sees a value the algebra does not give it *)
